@@ -1,6 +1,9 @@
 use crate::{
-    self as simplesl, Error,
-    instruction::{ExecResult, Instruction, InstructionWithStr, unary_operation::UnaryOperation},
+    self as simplesl, BinOperator, Error,
+    instruction::{
+        BinOperation, ExecResult, Instruction, InstructionWithStr, tuple::Tuple,
+        unary_operation::UnaryOperation,
+    },
     stdlib::operators::{FLOAT_SUM, INT_SUM, STRING_SUM},
     unary_operator::UnaryOperator,
     variable::{ReturnType, Type, Typed, Variable},
@@ -23,6 +26,29 @@ pub fn create(array: InstructionWithStr) -> Result<Instruction, Error> {
             expected: ACCEPTED_TYPE.clone(),
             given: return_type,
         });
+    }
+    // when the element type is known here the reducer is chosen now: at run time the iterator of an
+    // empty array carries the element type `!` and cannot tell its zero from another type's
+    let reducer = if return_type.matches(&var_type!(() -> (bool, int))) {
+        Some(Variable::from(INT_SUM))
+    } else if return_type.matches(&var_type!(() -> (bool, float))) {
+        Some(Variable::from(FLOAT_SUM))
+    } else if return_type.matches(&var_type!(() -> (bool, string))) {
+        Some(Variable::from(STRING_SUM))
+    } else {
+        None
+    };
+    if let Some(reducer) = reducer {
+        let rhs = Tuple {
+            elements: [array].into(),
+        }
+        .into();
+        return Ok(BinOperation {
+            lhs: reducer.into(),
+            rhs,
+            op: BinOperator::FunctionCall,
+        }
+        .into());
     }
     Ok(UnaryOperation {
         instruction: array.instruction,
